@@ -62,7 +62,25 @@ TrHomo == /\ HasEvent("Homo") /\ UNCHANGED vars
                   length_wrong |-> ~E.raised /\ Len(E.hist) # Len(E.edges) - 1,
                   long_string_bin_wrong |-> ~E.raised /\ Len(E.hist) = Len(E.edges) - 1 /\ \E b \in 1..Len(E.hist) : E.hist[b] # cnt(b) ]))
 
-TraceNext == TrSilent \/ TrCall \/ TrSampled \/ TrBackground \/ TrHomo
+\* large collections (thousands of elements, beyond any size threshold of the implementation) given as distinct strings u with
+\* multiplicities: mx[i] copies of u[i] in the first collection, my[i] copies in the second (all zero = one-collection form).
+\* Pairs of copies of the same string are at distance 0; the count of a bin follows from the distances of the distinct strings.
+SumOver(S, f(_)) == FoldLeft(LAMBDA acc, x : acc + f(x), 0, SetToSeq(S))
+TrBig == /\ HasEvent("Big") /\ UNCHANGED vars
+         /\ LET u == E.u
+                m == Len(u)
+                two == \E i \in 1..m : E.my[i] > 0
+            IN \E D \in { [i \in 1..m |-> [j \in 1..m |-> IF i = j THEN 0 ELSE Lev(u[i], u[j])]] } :
+               LET cnt(b) == IF two
+                             THEN SumOver({ ij \in (1..m) \X (1..m) : InBin(D[ij[1]][ij[2]], E.edges, b) }, LAMBDA ij : E.mx[ij[1]] * E.my[ij[2]])
+                             ELSE SumOver({ ij \in (1..m) \X (1..m) : ij[1] < ij[2] /\ InBin(D[ij[1]][ij[2]], E.edges, b) }, LAMBDA ij : E.mx[ij[1]] * E.mx[ij[2]])
+                                  + (IF InBin(0, E.edges, b) THEN SumOver(1..m, LAMBDA i : (E.mx[i] * (E.mx[i] - 1)) \div 2) ELSE 0)
+               IN Consume(Named([
+                    raised |-> E.raised,
+                    length_wrong |-> ~E.raised /\ Len(E.hist) # Len(E.edges) - 1,
+                    large_input_bin_wrong |-> ~E.raised /\ Len(E.hist) = Len(E.edges) - 1 /\ \E b \in 1..Len(E.hist) : E.hist[b] # cnt(b) ]))
+
+TraceNext == TrSilent \/ TrCall \/ TrSampled \/ TrBackground \/ TrHomo \/ TrBig
 TraceSpec == TraceInit /\ [][TraceNext]_<<vars, xvars>>
 SessionDone == l > Len(Events)
 EmitVerdict == SessionDone => PrintT(ToJson([sid |-> Sessions[s].sid, n |-> Len(Events), verdict |-> verdict]))
